@@ -9,13 +9,16 @@ CONSTANTS MaxN, Durs      \* durations of the activities; 99 stands for infinity
 VARIABLES sc
 Scenarios ==
   [op : {"collect"}, acts : UNION {[1..n -> [d : Durs, f : BOOLEAN]] : n \in 0..MaxN}, k : {0},
-   cons : {"prompt", "cancel1", "close1", "until1"}]
+   cons : {"prompt", "cancel1", "close1", "until1", "until0", "cancel0"}]
   \cup
   [op : {"first"}, acts : UNION {[1..n -> [d : Durs, f : BOOLEAN]] : n \in 1..MaxN},
-   k : {0, 1, 2, 3, 4, 99}, cons : {"prompt", "slow", "break1", "cancel1", "close1", "until1"}]
+   k : {0, 1, 2, 3, 4, 99}, cons : {"prompt", "slow", "break1", "cancel1", "close1", "until1", "until0", "cancel0"}]
 \* consumer behaviours: prompt / slow (suspends between results) / break1 (leaves the iteration after one result) /
 \* cancel1 (the caller is cancelled at +1) / close1 (the caller is a volatile task closed forcefully at +1) /
-\* until1 (the call is made inside `async with until(time + 1)`: the interrupt of that block passes through it)
+\* until1 (the call is made inside `async with until(time + 1)`: the interrupt of that block passes through it) /
+\* until0 (inside `async with until(flag)` whose flag is already set) / cancel0 (the caller was woken and then cancelled
+\* in this time step: the cancellation is in flight when the call is made) - in both the caller's interrupt is queued
+\* BEFORE the call, so it strikes at the call's first suspension, when the activities have not had a turn yet
 Init == sc \in Scenarios
 Next == UNCHANGED sc
 Spec == Init /\ [][Next]_sc
